@@ -25,7 +25,7 @@ func (c07) ID() string { return "C07" }
 func (c07) Meta(tier string) engine.Meta {
 	return engine.Meta{
 		Level: "model_checking",
-		Rule: "all pairs (compile-time binding of x, run-time binding of x) over 19 values of 15 types (scalars, lists, maps, objects in both field orders, empty object, optionals present / absent) plus the run-time mutations {x missing, y missing, extra name z, y of another type}, × 7 representation pairs (raw→raw, map→map, struct→struct, map→struct, struct→map, raw→map, map→raw), × 6 programs containing tracers, × map-iteration seeds 1..8; plus every history of <= 3 invocations of one Callable drawn from {matching, matching with other values, type mismatch, missing name, same Go type with a nil pointer where the sample had a value}, for raw / map / struct environments and for ONE raw environment object rebound in place between invocations. plus 13 run-time values of the sample's Go type whose nested elements differ in type (maps of slices, slices of maps, struct fields ...) x 4 back ends x map seeds 1..8, each between two good calls. plus 8 scripts on hand-written Go types: the same field with 8 other numeric kinds (accepted) and other constructors (rejected), two different struct types carrying one Go name seen through empty slices / nil pointers, a compile-time *types.Env in which a name was bound twice. Oracle: accepted iff every compile-time name is present with a structurally equal type (fields by name); on rejection: an error, an EMPTY host-call trace and no panic; on acceptance: value and trace equal the reference evaluator's; each invocation's outcome is independent of the history before it. non-trivial = every case",
+		Rule: "all pairs (compile-time binding of x, run-time binding of x) over 22 values of 18 types (scalars, lists, maps, objects in both field orders, objects / lists / optionals of objects with one field renamed at equal field count, empty object, optionals present / absent) plus the run-time mutations {x missing, y missing, extra name z, y of another type}, × 7 representation pairs (raw→raw, map→map, struct→struct, map→struct, struct→map, raw→map, map→raw), × 6 programs containing tracers, × map-iteration seeds 1..8; plus every history of <= 3 invocations of one Callable drawn from {matching, matching with other values, type mismatch, missing name, same Go type with a nil pointer where the sample had a value}, for raw / map / struct environments and for ONE raw environment object rebound in place between invocations. plus 13 run-time values of the sample's Go type whose nested elements differ in type (maps of slices, slices of maps, struct fields ...) x 4 back ends x map seeds 1..8, each between two good calls. plus 8 scripts on hand-written Go types: the same field with 8 other numeric kinds (accepted) and other constructors (rejected), two different struct types carrying one Go name seen through empty slices / nil pointers, a compile-time *types.Env in which a name was bound twice. Oracle: accepted iff every compile-time name is present with a structurally equal type (fields by name); on rejection: an error, an EMPTY host-call trace and no panic; on acceptance: value and trace equal the reference evaluator's; each invocation's outcome is independent of the history before it. non-trivial = every case",
 		Bound: "two names; histories of length <= 3",
 		Assumptions: []string{"the type of a host value is what the reference derives from its description (C15 checks that conversion agrees)"},
 	}
@@ -38,6 +38,8 @@ func c07Values() []*ref.V {
 		ref.MapV(gen.Str, gen.Num, ref.StrV("k"), ref.NumV(1)), ref.MapV(gen.Num, gen.Str, ref.NumV(1), ref.StrV("v")), ref.MapV(gen.Str, gen.Str, ref.StrV("k"), ref.StrV("v")),
 		oab(1, "x"), oba(3, "z"), ref.ObjV([]string{"a"}, ref.NumV(1)), ref.ObjV(nil),
 		ref.JustV(ref.NumV(5)), ref.NothingV(gen.Num), ref.JustV(oba(1, "m")),
+		// same field count as {a,b}, one field renamed (a per-field lookup that forgets the miss accepts it)
+		oac(1, "x"), ref.ListV(tyOAC, oac(1, "x")), ref.JustV(oac(1, "m")),
 	}
 }
 
